@@ -20,16 +20,17 @@ import (
 func init() {
 	fw.Register(&fw.Check{
 		ID: "C01",
-		Rule: "Each case: a seeded config struct type built with reflect.StructOf (depth <=3 quick / <=4 thorough, 1-7 fields per struct; leaves from 48 kinds: every integer width, floats, complex, bool, string, duration, time.Time, net.IP, a harness TextUnmarshaler, slices, maps, sets, arrays, slices/arrays of structs, user-declared pointers, named types; nested / pointer / embedded / embedded-pointer structs; skipped fields - unexported, dials:\"-\", chan, func - in any position), random defaults (same-typed pointer leaves sometimes pointing at one variable), 1-5 layers (a quarter of the cases list one layer's value object a second time, later) with seeded set/unset patterns (values unique per case, occasionally empty-but-non-nil collections), " +
+		Rule: "Each case: a seeded config struct type built with reflect.StructOf (depth <=3 quick / <=4 thorough, 1-7 fields per struct; leaves from 48 kinds: every integer width, floats, complex, bool, string, duration, time.Time, net.IP, a harness TextUnmarshaler, slices, maps, sets, arrays, slices/arrays of structs, user-declared pointers, named types; nested / pointer / embedded / embedded-pointer structs; skipped fields - unexported, dials:\"-\", chan, func - in any position), random defaults (same-typed pointer leaves sometimes pointing at one variable; same-typed slice leaves sometimes views of one backing array: s and s[:k], s[:k:k], s[j:], s[j:k]), 1-5 layers (same-typed slice leaves set by one layer sometimes such views as well, the value then materialised without cloning) (a quarter of the cases list one layer's value object a second time, later) with seeded set/unset patterns (values unique per case, occasionally empty-but-non-nil collections), " +
 			"materialised BY FIELD NAME into ptrify.Pointerify(T, defaults) and stacked by the real compose (build-tagged export). Oracle: an independent reference stack over leaf paths (clone defaults, assign each set leaf in layer order, allocate a nil *struct only when a child is set), compared with a strict differ (floats bitwise, nil vs empty, chan/func identity); result type must be *T; inserting an all-unset layer at a random position must change nothing. " +
-			"Plus a static corpus (types with genuinely unexported defaulted fields, embedded named structs) through the public dials.Config API. distinct_nontrivial = distinct (type-shape signature, set-pattern matrix) among cases with >=2 layers and >=1 leaf set by two layers.",
+			"Plus a static corpus (types with genuinely unexported defaulted fields, embedded named structs; two []string settings that are views of one backing array in the defaults and/or in one layer) through the public dials.Config API. distinct_nontrivial = distinct (type-shape signature, set-pattern matrix) among cases with >=2 layers and >=1 leaf set by two layers.",
 		Assumptions: []string{
 			"interface-typed fields are outside C01's quantifier and are not generated",
 			"layers never carry a non-nil nested struct pointer with no child set (what that should mean is not fixed by the statement)",
 		},
 		MinDistinct: map[string]int{"quick": 5000, "thorough": 200000},
 		MinCounters: map[string]map[string]int64{
-			"quick":    {"cases_with_one_layer_object_listed_twice": 2000, "default_pointer_leaves_sharing_a_pointee": 150, "static_cases_with_defaults_sharing_a_pointee": 1500, "watcher_updates_compared": 4000, "leaves_compared": 100000, "cases_with_skipped_field_between_set_leaves": 1500, "metamorphic_empty_layer_checks": 3000, "static_corpus_cases": 200},
+			"quick":    {"cases_with_one_layer_object_listed_twice": 2000, "default_pointer_leaves_sharing_a_pointee": 150, "static_cases_with_defaults_sharing_a_pointee": 1500, "watcher_updates_compared": 4000, "leaves_compared": 100000, "cases_with_skipped_field_between_set_leaves": 1500, "metamorphic_empty_layer_checks": 3000, "static_corpus_cases": 200,
+				"cases_with_slice_views_compared": 1000, "cases_with_slice_views_in_a_layer_compared": 700, "static_cases_with_slice_views_of_one_backing_array": 1500},
 			"thorough": {"leaves_compared": 5000000},
 		},
 		Plan: func(tier string) fw.Plan {
@@ -147,6 +148,12 @@ func runC01(w *fw.Worker) {
 		if n := c01ShareDefaultPointees(r, defaults); n > 0 {
 			w.Count("default_pointer_leaves_sharing_a_pointee", int64(n))
 		}
+		// ... or keep a list and a view of it (s and s[:k], s[j:], s[:k:k]) in two settings: one backing array, but each
+		// leaf is its own value (its own length and elements) for precedence
+		viewLeaves := map[*gen.Field]bool{}
+		if n := sliceViewsInDefaults(r, leaves, defaults, viewLeaves); n > 0 {
+			w.Count("default_slice_leaves_made_views_of_one_backing_array", int64(n))
+		}
 		defPtr := reflect.New(spec.Type())
 		defPtr.Elem().Set(defaults)
 		defClone := gen.CloneValue(defaults)
@@ -156,9 +163,17 @@ func runC01(w *fw.Worker) {
 		layers := make([]*gen.Layer, nLayers)
 		vals := make([]reflect.Value, nLayers)
 		setFields := map[*gen.Field]bool{}
+		layersWithViews := 0
 		for k := range layers {
 			layers[k] = gen.RandomLayer(r, c, leaves, setPct)
-			vals[k] = layers[k].Materialize(ptrType)
+			if n := sliceViewsInLayer(r, leaves, layers[k], viewLeaves); n > 0 {
+				// the layer's value must keep the shared backing array: materialise without cloning
+				vals[k] = materializeShared(layers[k], ptrType)
+				w.Count("layer_slice_leaves_made_views_of_one_backing_array", int64(n))
+				layersWithViews++
+			} else {
+				vals[k] = layers[k].Materialize(ptrType)
+			}
 			if r.Bool() {
 				// sources may hand over a pointer to the struct as well
 				p := reflect.New(ptrType)
@@ -192,10 +207,21 @@ func runC01(w *fw.Worker) {
 		}
 		want := gen.ReferenceStack(defClone, layers)
 		if d := gen.Diff(want, got.Elem()); d != "" {
-			w.Violation(i, "stack-differs-from-reference:"+c01Classify(spec, d), "reference vs dials at "+d, witness())
+			key := "stack-differs-from-reference:" + c01Classify(spec, d)
+			if f := c01FieldAt(spec, d); f != nil && viewLeaves[f] {
+				// the leaf is one of several slices that were handed over as views of one backing array
+				key = "stack-differs-from-reference:slice-leaf-sharing-a-backing-array-with-another-leaf:" + f.Leaf.Name
+			}
+			w.Violation(i, key, "reference vs dials at "+d, witness())
 			return
 		}
 		w.Count("leaves_compared", int64(len(leaves)))
+		if len(viewLeaves) > 0 {
+			w.Count("cases_with_slice_views_compared", 1)
+			if layersWithViews > 0 {
+				w.Count("cases_with_slice_views_in_a_layer_compared", 1)
+			}
+		}
 		// defaults untouched (C02 judges aliasing; here only that stacking did not change the input)
 		if d := gen.Diff(defClone, defPtr.Elem()); d != "" {
 			w.Violation(i, "defaults-modified-by-stacking", d, witness())
@@ -275,6 +301,17 @@ func c01ShareDefaultPointees(r *fw.Rand, v reflect.Value) int {
 
 // c01Classify names the kind of the field at the diff path.
 func c01Classify(spec *gen.Spec, d string) string {
+	_, kind := c01Locate(spec, d)
+	return kind
+}
+
+// c01FieldAt returns the leaf field the diff path leads to (nil if it ends elsewhere).
+func c01FieldAt(spec *gen.Spec, d string) *gen.Field {
+	f, _ := c01Locate(spec, d)
+	return f
+}
+
+func c01Locate(spec *gen.Spec, d string) (*gen.Field, string) {
 	path := d
 	if k := strings.Index(path, ":"); k >= 0 {
 		path = path[:k]
@@ -298,12 +335,102 @@ func c01Classify(spec *gen.Spec, d string) string {
 			kind = f.Kind.String()
 			sp = f.Sub
 		case f.Kind == gen.KLeaf:
-			return f.Leaf.Name
+			return f, f.Leaf.Name
 		default:
-			return "skipped-" + f.Kind.String()
+			return nil, "skipped-" + f.Kind.String()
 		}
 	}
-	return kind
+	return nil, kind
+}
+
+// ---- slices that are views of one backing array
+
+// sliceViewOf returns a slice that shares s's backing array (s is non-nil, len >= 1): most often a shorter prefix with
+// the same capacity (hosts and hosts[:1]; buf and buf[:0]), else a prefix with clipped capacity, a suffix, an inner
+// window, a longer view into the spare capacity, or the same header again.
+func sliceViewOf(r *fw.Rand, s reflect.Value) reflect.Value {
+	n, c := s.Len(), s.Cap()
+	switch r.Intn(10) {
+	case 0, 1, 2, 3, 4:
+		return s.Slice(0, r.Intn(n))
+	case 5:
+		k := r.Intn(n + 1)
+		return s.Slice3(0, k, k)
+	case 6:
+		return s.Slice(r.Range(1, n), n)
+	case 7:
+		j := r.Intn(n)
+		return s.Slice(j, r.Range(j, n))
+	case 8:
+		if c > n {
+			return s.Slice(0, r.Range(n+1, c))
+		}
+		return s.Slice(0, r.Intn(n))
+	}
+	return s
+}
+
+// sliceViewGroups: of the given slice-typed leaf values, per slice type, one that is non-empty becomes the base and
+// each of the others is, with chance 60, replaced (through set) by a view of the base. Random draws happen only when
+// two leaves of one slice type are present. Returns how many leaves were replaced.
+func sliceViewGroups(r *fw.Rand, refs []*gen.LeafRef, get func(*gen.LeafRef) reflect.Value, set func(*gen.LeafRef, reflect.Value), involved map[*gen.Field]bool) int {
+	byType := map[reflect.Type][]*gen.LeafRef{}
+	var order []reflect.Type
+	for _, lr := range refs {
+		if lr.Leaf().Leaf.Type.Kind() != reflect.Slice {
+			continue
+		}
+		if v := get(lr); !v.IsValid() {
+			continue
+		}
+		t := lr.Leaf().Leaf.Type
+		if byType[t] == nil {
+			order = append(order, t)
+		}
+		byType[t] = append(byType[t], lr)
+	}
+	n := 0
+	for _, t := range order {
+		g := byType[t]
+		var bases []*gen.LeafRef
+		for _, lr := range g {
+			if v := get(lr); !v.IsNil() && v.Len() >= 1 {
+				bases = append(bases, lr)
+			}
+		}
+		if len(g) < 2 || len(bases) == 0 {
+			continue
+		}
+		base := bases[r.Intn(len(bases))]
+		bv := get(base)
+		for _, lr := range g {
+			if lr == base || !r.Chance(60) {
+				continue
+			}
+			set(lr, sliceViewOf(r, bv))
+			involved[lr.Leaf()], involved[base.Leaf()] = true, true
+			n++
+		}
+	}
+	return n
+}
+
+// sliceViewsInLayer makes some same-typed slice leaves that one layer sets views of one backing array.
+func sliceViewsInLayer(r *fw.Rand, leaves []*gen.LeafRef, l *gen.Layer, involved map[*gen.Field]bool) int {
+	return sliceViewGroups(r, leaves,
+		func(lr *gen.LeafRef) reflect.Value { return l.Vals[lr] },
+		func(lr *gen.LeafRef, v reflect.Value) { l.Vals[lr] = v }, involved)
+}
+
+// sliceViewsInDefaults does the same among the reachable slice leaves of the defaults value.
+func sliceViewsInDefaults(r *fw.Rand, leaves []*gen.LeafRef, defaults reflect.Value, involved map[*gen.Field]bool) int {
+	get := func(lr *gen.LeafRef) reflect.Value {
+		if v := leafValue(defaults, lr); v.IsValid() && v.CanSet() {
+			return v
+		}
+		return reflect.Value{}
+	}
+	return sliceViewGroups(r, leaves, get, func(lr *gen.LeafRef, v reflect.Value) { get(lr).Set(v) }, involved)
 }
 
 // ---- static corpus through the public API
@@ -412,6 +539,18 @@ func c01StaticCase(w *fw.Worker, i int, r *fw.Rand) {
 	case 2:
 		def.Burst = &def.First
 	}
+	// a list and a view of it in two settings of the defaults (one backing array, two values)
+	viewMode := r.Intn(4)
+	if all := []string{"a", "b", "c"}; viewMode != 0 {
+		switch viewMode {
+		case 1:
+			def.Inner.Tags, def.PInner2.Tags = all, all[:1]
+		case 2:
+			def.Inner.Tags, def.PInner2.Tags = all[:1], all
+		case 3:
+			def.Inner.Tags, def.PInner2.Tags = all[:2], all[1:]
+		}
+	}
 	want := *def
 	if def.Q != nil {
 		q := *def.Q
@@ -433,6 +572,7 @@ func c01StaticCase(w *fw.Worker, i int, r *fw.Rand) {
 	}
 	n := r.Range(1, 4)
 	var srcs []dials.Source
+	layerViews := 0
 	uniq := 100
 	for k := 0; k < n; k++ {
 		var l layer
@@ -478,6 +618,9 @@ func c01StaticCase(w *fw.Worker, i int, r *fw.Rand) {
 			}
 			if r.Bool() {
 				il.Tags = []string{fmt.Sprint("t", next())}
+				if r.Bool() {
+					il.Tags = append(il.Tags, fmt.Sprint("t", next()))
+				}
 				want.Inner.Tags = append([]string(nil), il.Tags...)
 			}
 			if il.Host != nil || il.Port != nil || il.Tags != nil {
@@ -501,6 +644,12 @@ func c01StaticCase(w *fw.Worker, i int, r *fw.Rand) {
 			il.Port = &v
 			l.PInner2 = il
 			want.PInner2.Port = v
+			if l.Inner != nil && len(l.Inner.Tags) >= 1 && r.Bool() {
+				// this layer sets both Tags leaves from one backing array: the list and a shorter view of it
+				il.Tags = l.Inner.Tags[:len(l.Inner.Tags)-1]
+				want.PInner2.Tags = append([]string{}, il.Tags...)
+				layerViews++
+			}
 		}
 		if r.Bool() {
 			v := next()
@@ -541,6 +690,9 @@ func c01StaticCase(w *fw.Worker, i int, r *fw.Rand) {
 	w.Count("static_corpus_cases", 1)
 	if shareMode != 0 {
 		w.Count("static_cases_with_defaults_sharing_a_pointee", 1)
+	}
+	if viewMode != 0 || layerViews > 0 {
+		w.Count("static_cases_with_slice_views_of_one_backing_array", 1)
 	}
 }
 
